@@ -19,6 +19,11 @@ import LMV.Lemmas.ScoreSse2
 import LMV.Props.C04
 import Mathlib.Algebra.Ring.Rat
 import Mathlib.Algebra.Order.Monoid.Unbundled.WithTop
+import Mathlib.Algebra.Order.Ring.Abs
+import Mathlib.Algebra.Order.Field.Rat
+import Mathlib.Tactic.Ring
+import Mathlib.Tactic.Linarith
+import Mathlib.Tactic.GCongr
 
 namespace LMV
 namespace C01
@@ -485,6 +490,133 @@ theorem score_unstripe_dispatch (arm : Arm) (zero : α) (add : α → α → α)
   score_unstripe_any (by decide) zero add pssm N seq s inv hs hN hM hW _
     (fun sc => dispatchF32_eq_generic arm zero add hz pssm hK seq 0 _ sc hM hW (Nat.le_refl _)
       (symOK_of_inv N seq s inv hs hN))
+
+/-! ## §F  floating-point summation error of a left fold -/
+
+section rounding
+
+theorem abs_list_sum_le (l : List ℚ) : |l.sum| ≤ (l.map (|·|)).sum := by
+  induction l with
+  | nil => simp
+  | cons x xs ih =>
+    simp only [List.sum_cons, List.map_cons]
+    exact (abs_add_le x xs.sum).trans (by linarith)
+
+theorem list_abs_sum_nonneg (l : List ℚ) : 0 ≤ (l.map (|·|)).sum := by
+  induction l with
+  | nil => simp
+  | cons x xs ih =>
+    simp only [List.sum_cons, List.map_cons]
+    have := abs_nonneg x
+    linarith
+
+/-- **C01 (5), the standard rounding-error bound.**  If every addition is exact up to a relative
+    error `|δ| ≤ u` (`fl(x + y) = (x + y)(1 + δ)`: IEEE round-to-nearest with `u = 2⁻²⁴` for `f32`,
+    valid for all finite operands short of overflow — additions are exact in the subnormal range),
+    a left fold of `n` terms started at `0` is within `((1 + u)ⁿ − 1) · Σ|xᵢ|` of the exact sum. -/
+theorem foldl_round_error (u : ℚ) (hu : 0 ≤ u) (fl : ℚ → ℚ → ℚ)
+    (hfl : ∀ x y, ∃ δ, |δ| ≤ u ∧ fl x y = (x + y) * (1 + δ)) (xs : List ℚ) :
+    |List.foldl fl 0 xs - xs.sum| ≤ ((1 + u) ^ xs.length - 1) * (xs.map (|·|)).sum := by
+  induction xs using list_snoc_induction with
+  | nil => simp
+  | snoc l x ih =>
+    rw [List.foldl_append, List.sum_append, List.map_append, List.sum_append, List.length_append]
+    simp only [List.foldl_cons, List.foldl_nil, List.sum_cons, List.sum_nil, List.map_cons,
+      List.map_nil, List.length_cons, List.length_nil, add_zero, zero_add]
+    obtain ⟨δ, hδ, he⟩ := hfl (List.foldl fl 0 l) x
+    rw [he]
+    generalize List.foldl fl 0 l = S at ih ⊢
+    have hT := abs_list_sum_le l
+    have hA := list_abs_sum_nonneg l
+    generalize l.sum = T at ih hT ⊢
+    generalize (l.map (|·|)).sum = A at ih hT hA ⊢
+    have hp : (1 : ℚ) ≤ (1 + u) ^ l.length := one_le_pow₀ (by linarith)
+    rw [pow_succ]
+    generalize (1 + u) ^ l.length = p at ih hp ⊢
+    have key : (S + x) * (1 + δ) - (T + x) = (S - T) * (1 + δ) + (T + x) * δ := by ring
+    rw [key]
+    have h1 : |1 + δ| ≤ 1 + u := (abs_add_le 1 δ).trans (by rw [abs_one]; linarith)
+    have h2 : |T + x| ≤ A + |x| := (abs_add_le T x).trans (by linarith)
+    have hx := abs_nonneg x
+    have hST := abs_nonneg (S - T)
+    have hTx := abs_nonneg (T + x)
+    calc |(S - T) * (1 + δ) + (T + x) * δ|
+        ≤ |S - T| * |1 + δ| + |T + x| * |δ| := by
+          refine (abs_add_le _ _).trans ?_
+          rw [abs_mul, abs_mul]
+      _ ≤ ((p - 1) * A) * (1 + u) + (A + |x|) * u := by
+          gcongr
+      _ ≤ (p * (1 + u) - 1) * (A + |x|) := by
+          nlinarith [mul_nonneg (mul_nonneg (sub_nonneg.mpr hp) hu) hx, mul_nonneg (sub_nonneg.mpr hp) hx]
+
+/-- the bound for the window score: what every backend returns for a window of finite entries is
+    within `((1 + u)^M − 1) · Σ_j |m[j][s[i+j]]|` of the exact sum `Σ_j m[j][s[i+j]]` -/
+theorem windowScore_round_error (u : ℚ) (hu : 0 ≤ u) (fl : ℚ → ℚ → ℚ)
+    (hfl : ∀ x y, ∃ δ, |δ| ≤ u ∧ fl x y = (x + y) * (1 + δ)) (pssm : Mat ℚ K) (N : Nat)
+    (s : List Nat) (i : Nat) :
+    |windowScore 0 fl pssm N s i - (windowTerms 0 pssm N s i).sum| ≤
+      ((1 + u) ^ pssm.rows - 1) * ((windowTerms 0 pssm N s i).map (|·|)).sum := by
+  have h := foldl_round_error u hu fl hfl (windowTerms 0 pssm N s i)
+  rw [windowScore_eq_foldl]
+  have hl : (windowTerms 0 pssm N s i).length = pssm.rows := by simp [windowTerms]
+  rw [hl] at h
+  exact h
+
+end rounding
+
+/-! ## §G  non-vacuity: the hypotheses are satisfiable and the theorems say something -/
+
+section examples
+
+/-- a 7-symbol DNA sequence containing the wildcard `N = 4`, and a 2-row integer matrix -/
+def exS : List Nat := [0, 2, 3, 1, 0, 4, 2]
+def exP : Mat Int 5 := Mat.ofFn 2 fun r c => (r : Int) * 10 - c
+def exSeq4 : Striped 4 := Striped.configure 4 2 (stripeGeneric (C := 4) 4 exS Striped.empty)
+/-- 40 symbols in 32 columns: 2 sequence rows + 1 wrap row -/
+def exS32 : List Nat := (List.range 40).map fun i => (i * i + i / 3) % 5
+def exSeq32 : Striped 32 := Striped.configure 4 2 (stripeGeneric (C := 32) 4 exS32 Striped.empty)
+
+def unOf {C : Nat} (r : Except String (Scores Int C)) : List Int :=
+  match r with
+  | .ok sc => unstripe 0 sc
+  | .error _ => [-999]
+
+-- the hypotheses of §B/§E hold for a striped and configured sequence
+example : Inv 4 exSeq4 exS := configure_inv (by decide) 4 _ _ 2 (stripeGeneric_inv (by decide) 4 _ _)
+example : Inv 4 exSeq32 exS32 := configure_inv (by decide) 4 _ _ 2 (stripeGeneric_inv (by decide) 4 _ _)
+example : (∀ x ∈ exS, x < 5) ∧ 1 ≤ exP.rows ∧ exP.rows - 1 ≤ exSeq4.wrap := by decide
+example : SymOK 5 exSeq32 :=
+  symOK_of_inv 4 exSeq32 exS32
+    (configure_inv (by decide) 4 _ _ 2 (stripeGeneric_inv (by decide) 4 _ _)) (by decide) (by decide)
+-- and the conclusions are the expected numbers: L - M + 1 = 6 values, each the window score
+example : unOf (scoreFull (scoreRowsGeneric 0 (· + ·) exP exSeq4) exSeq4) = [8, 5, 6, 9, 6, 4] := by decide +kernel
+example : (List.range 6).map (fun i => windowScore 0 (· + ·) exP 4 exS i) = [8, 5, 6, 9, 6, 4] := by decide +kernel
+-- the SIMD models really run their lanes (39 = 40 - 2 + 1 values, two sequence rows, look-ahead row used)
+example : unOf (scoreFull (Avx2.scoreF32 0 (· + ·) exP exSeq32) exSeq32) =
+    (List.range 39).map fun i => windowScore 0 (· + ·) exP 4 exS32 i := by decide +kernel
+example : unOf (scoreFull (Sse2.score 0 (· + ·) exP exSeq32) exSeq32) =
+    (List.range 39).map fun i => windowScore 0 (· + ·) exP 4 exS32 i := by decide +kernel
+example : unOf (scoreFull (Avx2.scoreU8 0 (· + ·) exP exSeq32) exSeq32) =
+    (List.range 39).map fun i => windowScore 0 (· + ·) exP 4 exS32 i := by decide +kernel
+-- a sub-range at the end of the rows; an empty range; L < M
+example : unOf (Avx2.scoreF32 0 (· + ·) exP exSeq32 1 2 Score.empty) =
+    unOf (scoreRowsGeneric 0 (· + ·) exP exSeq32 1 2 Score.empty) := by decide +kernel
+example : unOf (Sse2.score 0 (· + ·) exP exSeq32 1 1 Score.empty) = [] := by decide +kernel
+example : unOf (scoreFull (scoreRowsGeneric 0 (· + ·) exP
+    (Striped.configure 4 2 (stripeGeneric (C := 4) 4 [3] Striped.empty)))
+    (Striped.configure 4 2 (stripeGeneric (C := 4) 4 [3] Striped.empty))) = [] := by decide +kernel
+-- the guards are needed: without the wrap row the SIMD wrapper panics and the generic code reads a missing row
+example : (match Avx2.scoreF32 0 (· + ·) exP (stripeGeneric (C := 32) 4 exS32 Striped.empty) 0 2 Score.empty with
+    | .ok _ => false | .error _ => true) = true := by decide +kernel
+example : (match scoreRowsGeneric 0 (· + ·) exP (stripeGeneric (C := 32) 4 exS32 Striped.empty) 0 2 Score.empty with
+    | .ok _ => false | .error _ => true) = true := by decide +kernel
+-- the law `add x zero = x` of the SSE2 theorem is not vacuous either: it holds for exact numbers
+example : ∀ x : Int, x + 0 = x := Int.add_zero
+-- exact arithmetic: a `⊥` entry makes exactly the windows that meet it `⊥`
+example : windowScore (0 : WithBot ℚ) (· + ·) (Mat.ofFn (C := 5) 1 fun _ c => if c = 4 then ⊥ else 1) 4 [0, 4, 1] 1 = ⊥ := by
+  rw [windowScore_eq_bot_iff]; exact ⟨0, by decide, by decide⟩
+
+end examples
 
 end C01
 end LMV
